@@ -14,6 +14,7 @@ pub struct Reg {
     pub z_clones: i64,
     pub nd_clones: i64,
     pub conv_fault: bool,
+    pub shape: u32,
     pub clone_fault: Option<u32>,
     pub drop_fault: Option<u32>,
     pub closure_fault: Option<u32>,
